@@ -34,6 +34,7 @@ import (
 	"github.com/enfein/mieru/v3/pkg/egress"
 	"google.golang.org/protobuf/proto"
 	"runtime"
+	"syscall"
 	"github.com/enfein/mieru/v3/apis/model"
 	mlog "github.com/enfein/mieru/v3/pkg/log"
 	"github.com/enfein/mieru/v3/pkg/protocol"
@@ -104,6 +105,21 @@ type hseg struct {
 	LE      int // 0: fields zero (invalid for 10/11), 1: valid low entropy metadata for PLen = 0
 	Body    bodyClass
 	Garbage bool // not authenticated at all
+	overUDP bool // set by the scenario: the segment travels in a datagram
+}
+
+const udpReadBuf = 1500 // PacketUnderlay.readOneSegment: b := make([]byte, 1500)
+
+// wireLen is the length of the datagram that carries the segment with a matching body
+func (h hseg) wireLen() int {
+	n := 24 + 48 + h.Suffix
+	if !isSessionP(h.Proto) {
+		n += h.Prefix
+	}
+	if h.PLen > 0 {
+		n += h.PLen + 16
+	}
+	return n
 }
 
 func defSeg(p uint8, sid uint32) hseg {
@@ -238,6 +254,9 @@ func b2s(b bool) string {
 // caseLine renders the model input: W short fromserver replay authkind authval metalen proto ts le sid seq unack window status plen body
 func caseLine(kind string, h hseg, fromServer bool, authKind string, authVal uint32) string {
 	body := string(h.Body)
+	if h.overUDP && h.wireLen() > udpReadBuf && h.PLen > 0 {
+		body = string(bShort) // readOneSegment reads into a 1500-byte buffer: the rest of the datagram is cut off
+	}
 	ak, av := authKind, authVal
 	if h.Garbage {
 		ak, av, body = "n", 0, "ok"
@@ -349,6 +368,37 @@ func buildProbes(r *vh.Run, server bool, udp bool, all256 bool) []probe {
 		probe{name: "data-after-close", openOwn: true, segs: []pseg{{d(4, 1), "own"}, {d(6, 2), "closed"}}},
 		probe{name: "garbage", openOwn: true, segs: []pseg{{hseg{Garbage: true, Body: bOK}, "zero"}}},
 	)
+	// 6. boundary and out-of-range length fields in AUTHENTIC segments (metadata sealed with the valid key), followed
+	// by a matching body (correctly sealed box of exactly that length) and by a short one
+	fld := func(p uint8, pl, prefix, suffix int, b bodyClass) {
+		h := defSeg(p, 0)
+		h.PLen, h.Prefix, h.Suffix, h.Body = pl, prefix, suffix, b
+		ps = append(ps, probe{name: "fields", openOwn: true, segs: []pseg{{h.normalise(), "own"}}})
+	}
+	for _, b := range []bodyClass{bOK, bShort} {
+		for _, p := range []uint8{2, 3, 4, 5} {
+			for _, pl := range []int{0, 1, 1023, 1024, 1025, 65535} {
+				fld(p, pl, 0, 0, b)
+			}
+		}
+		for _, p := range []uint8{6, 7, 8, 9} {
+			for _, pl := range []int{0, 1, 32767, 32768, 32769, 65535} {
+				fld(p, pl, 0, 0, b)
+			}
+		}
+	}
+	for _, p := range []uint8{10, 11} { // low entropy types with a payload length and no valid low entropy fields
+		for _, pl := range []int{1, 32769, 65535} {
+			fld(p, pl, 0, 0, bOK)
+		}
+	}
+	for _, p := range []uint8{6, 7, 8, 9} {
+		for _, pre := range []int{0, 255} {
+			for _, suf := range []int{0, 255} {
+				fld(p, 1, pre, suf, bOK)
+			}
+		}
+	}
 	// 5. generated: random fields (thorough: many)
 	n := 20
 	if r.Thorough() {
@@ -553,6 +603,11 @@ func childServer(r *vh.Run, o *childOut, tr string, witnessOnly bool) {
 	nextSid := uint32(1000)
 	for pi, p := range probes {
 		debugProbe(r, pi, tr)
+		if os.Getenv("C10_DEBUG_TIMING") != "" {
+			var tv syscall.Timeval
+			syscall.Gettimeofday(&tv)
+			o.put(rec{T: "note", K: p.name, C: fmt.Sprintf("probe %d real_ms %d virtual %s sessions %d", pi, tv.Sec*1000+tv.Usec/1000, time.Now().UTC().Format("15:04:05.000"), len(snapshot(rg.Server)))})
+		}
 		bob := mkCred("bob", bobPass, 2) // keys rotate every 2 minutes of (virtual) time
 		nextSid += 10
 		own, unknown := nextSid, nextSid+1
@@ -633,6 +688,9 @@ func childServer(r *vh.Run, o *childOut, tr string, witnessOnly bool) {
 				}
 			} else {
 				conn.Write(enc.encode(rng, h))
+				if h.Body == bShort {
+					conn.Close() // on a stream "fewer bytes than the fields say" becomes an input when the stream ends there
+				}
 			}
 		}
 		// model state line: UDP: the whole server (alice's session present); TCP: a fresh underlay
@@ -766,11 +824,13 @@ func childServer(r *vh.Run, o *childOut, tr string, witnessOnly bool) {
 			doSeg(defSeg(2, 0), "own", "P")
 		}
 		for _, s := range p.segs {
-			if !udp && (s.h.Body == bShort || s.h.Body == bPad) {
-				// on a stream "fewer bytes than the fields say" is not an input of its own: the reader waits for the next bytes
+			if !udp && s.h.Body == bPad {
+				// on a stream extra bytes are not part of this segment: they are the beginning of the next one
 				continue
 			}
-			doSeg(s.h, s.sidClass, "W")
+			hh := s.h
+			hh.overUDP = udp
+			doSeg(hh, s.sidClass, "W")
 		}
 		victimCheck("after probe "+p.name, map[string]interface{}{"transport": tr, "probe": p.name, "segs": fmt.Sprint(p.segs)})
 		// cleanup so that idle sessions do not accumulate
@@ -916,10 +976,11 @@ func childClient(r *vh.Run, o *childOut, tr string) {
 		o.put(rec{T: "case", C: fmt.Sprintf("I c %s 1 1 %d 1 0 0", t, own), I: "-"})
 		dead := false
 		for _, s := range p.segs {
-			if dead || (!udp && (s.h.Body == bShort || s.h.Body == bPad)) {
+			if dead || (!udp && s.h.Body == bPad) {
 				continue
 			}
 			h := s.h
+			h.overUDP = udp
 			switch s.sidClass {
 			case "zero":
 				h.Sid = 0
@@ -948,6 +1009,9 @@ func childClient(r *vh.Run, o *childOut, tr string) {
 				sc := sconn
 				mu.Unlock()
 				sc.Write(enc.encode(rng, h))
+				if h.Body == bShort {
+					sc.Close()
+				}
 			}
 			wait := settle
 			if !udp && (h.Garbage || h.Body == bTag) {
